@@ -9,7 +9,7 @@ use crate::c03;
 use crate::fdrive::{check_terminal, drain_stream, show, FrameObs, SEv};
 use crate::indep::{self, Enc};
 use crate::rawcodec::{RawCfg, RawCodec, RawMsg};
-use crate::seams::{cut_bytes, Ev, SimBody};
+use crate::seams::{cut_bytes, Ev, Segmented, SimBody};
 use bytes::{BufMut, Bytes};
 use http::StatusCode;
 use simcore::Sim;
@@ -107,7 +107,7 @@ pub fn run_decode(sim: &Sim, _idx: u64) {
     sim.nontrivial();
     sim.sample(|| format!("decode: enc={enc:?} response={response} limit={limit:?} wire_len={w} declared_only={declared_only} stall={stall} before={before:?} after={after:?} accept={accept}"));
     sim.ev(|| format!("config decode: enc={enc:?} response={response} limit={limit:?} wire_len={w} declared_only={declared_only} stall={stall} before={before:?} after={after:?} probe_at={probe_at} accept={accept}"));
-    let body = SimBody::new(sim, "in", evs, sim.pick(&[0u64, 30]), false);
+    let body = Segmented::new(SimBody::new(sim, "in", evs, sim.pick(&[0u64, 30]), sim.chance(1, 4)));
     let dec = RawCodec(RawCfg { dec_buffer, ..RawCfg::default() }).decoder();
     let tenc = enc.map(|e| e.tonic());
     let mut s = if response { Streaming::new_response(dec, body, StatusCode::OK, tenc, limit) } else { Streaming::new_request(dec, body, tenc, limit) };
